@@ -1,5 +1,6 @@
 """C03 — fill.numpy is observationally equal to per-row fill. DESIGN §3 C03."""
 import itertools
+import math
 
 import numpy as np
 
@@ -254,6 +255,27 @@ def _tree(task):
                 acc.add(check_case(spec, [r2, r1], ("array", (0.5, 1.0)), (1,)))
                 acc.n("cases", 2)
                 acc.n("transitions", 8)
+    # (1b) sparse bin indexes at the edge of the 64-bit range: the vectorised path saturates there through masks, the
+    # scalar path through Python integers; a row whose index is exactly +-2**63 (or the float next to it) must land in
+    # the same bin on both paths (differential oracle only: both sides are the real library)
+    for _, _, node in S.node_ids(spec):
+        if node["t"] != "SparselyBin":
+            continue
+        bw, origin = node["p"]
+        edge = []
+        for k in (2.0 ** 63, -(2.0 ** 63), 2.0 ** 62):
+            x = origin + bw * k
+            edge += [x, math.nextafter(x, math.inf), math.nextafter(x, -math.inf)]
+        for x in edge:
+            r = dict(recs[0], **{node["q"]: x})
+            for m in (("none",), ("scalar", 2.0), ("array", (0.5,))):
+                acc.add(check_case(spec, [r], m, ()))
+                acc.n("cases")
+                acc.n("saturation_edge_cases")
+                acc.n("transitions", 2)
+            acc.add(check_case(spec, [r, recs[0]], ("none",), (1,)))
+            acc.n("cases")
+            acc.n("transitions", 4)
     # (2) every batch of length 0..n over the capped alphabet x weight mode x split
     for rep in P["reps"]:
         for n in range(0, (P["n"] if rep == "rec" else min(P["n"], 2)) + 1):
@@ -304,7 +326,8 @@ def run(tier, seed):
         "evaluations": acc.c.get("cases", 0),
         "distinct_nontrivial": len(acc.sets.get("cases", ())),
         "rule": "per tree: (1) every 1-row batch over the full alphabet x every weight mode, and every 2-row batch "
-                "(full x capped) cut into two calls; (2) every batch of 0..n rows over the capped alphabet x {no weights, "
+                "(full x capped) cut into two calls; (1b) for every SparselyBin node, rows whose bin index is exactly +-2**63, 2**62 or a "
+                "neighbouring float, x 3 weight modes; (2) every batch of 0..n rows over the capped alphabet x {no weights, "
                 "scalar 1/2.0/0.5/0.0, every weight array over {0,1,0.5}} x every cut into <=pieces successive fill.numpy "
                 "calls (empty pieces included); oracle = twin tree filled row by row; distinct = (tree,batch,mode,cut)",
         "exhaustive": True,
